@@ -150,12 +150,13 @@ type selDoc struct {
 	arr  []any
 	m    []any
 	s    string
+	tags []any
 }
 
 func mkSelDoc() *selDoc {
 	d := &selDoc{}
 	d.x, d.y = verif.F64("x"), verif.F64("y")
-	verif.Assume(verif.All(d.x == d.x, d.y == d.y))
+	verif.Assume(verif.All(d.x == d.x, d.y == d.y, verif.NotNegZero(d.x), verif.NotNegZero(d.y)))
 	d.s = verif.Str("s", 2, "")
 	n := verif.Choose("arr", 3)
 	d.arr = make([]any, n)
@@ -165,7 +166,9 @@ func mkSelDoc() *selDoc {
 		d.arr[i] = Map{"b": v, "c": d.s}
 	}
 	d.m = []any{[]any{d.x}, []any{d.y, d.x}}
+	d.tags = []any{d.s, "k", d.s, "z", "k", "q"}
 	d.doc = Map{
+		"tags": d.tags,
 		"a":   Map{"b": d.x, "c": d.s, "n": nil},
 		"arr": d.arr,
 		"m":   d.m,
@@ -236,6 +239,28 @@ var selCases = []selCase{
 	{"a[0]", func(d *selDoc) (any, bool) { return nil, true }},
 	{"nosuch=>a", func(d *selDoc) (any, bool) { return nil, true }},
 	{"", func(d *selDoc) (any, bool) { return d.doc, false }},
+	{"distinct=>tags", func(d *selDoc) (any, bool) {
+		var out []any
+		for _, t := range d.tags {
+			dup := false
+			for _, o := range out {
+				if verif.Eq(o, t) {
+					dup = true
+				}
+			}
+			if !dup {
+				out = append(out, t)
+			}
+		}
+		return out, false
+	}},
+	{"distinct=>m[1]", func(d *selDoc) (any, bool) {
+		if d.y == d.x {
+			return []any{d.y}, false
+		}
+		return []any{d.y, d.x}, false
+	}},
+	{"mix=>a", func(d *selDoc) (any, bool) { return Map{"b": d.x, "c": d.s, "n": nil}, false }},
 }
 
 // H_C09_reader: ExecReader on documented selector forms over a document
